@@ -245,6 +245,12 @@ def _corner_shapes(acc, shard, nshards, seed, tier):
             handle = host + "/" + path.split("/")[1]
             acc.check({"kind": "pair", "u": u, "v": handle, "family": "corner", "transforms": ["route-word-case"], "options": o}, _pair_nt, ["corner:upper-case-route-word"])
             acc.check({"kind": "single", "u": u, "options": o}, lambda c: c.pop("_changed", True), ())
+    # platform URLs under spellings that canonicalize_url removes (doubled slashes, dot segments, escapes, default port, case)
+    for u, o in itertools.product(PLATFORM_SPELLINGS, optsets):
+        idx += 1
+        if idx % nshards != shard:
+            continue
+        acc.check({"kind": "single", "u": u, "options": o}, lambda c: c.pop("_changed", True), ["corner:platform-spelling"])
     for (u, v), o in itertools.product(INDEX_CASE_PAIRS, optsets):
         idx += 1
         if idx % nshards != shard:
@@ -252,6 +258,10 @@ def _corner_shapes(acc, shard, nshards, seed, tier):
         acc.check({"kind": "pair", "u": u, "v": v, "family": "corner", "transforms": ["index-page-case"], "options": o}, _pair_nt, ["corner:mixed-case-index-page"])
 
 
+PLATFORM_SPELLINGS = ["https://facebook.com//zuck//posts//10158", "https://www.facebook.com/zuck/./posts/../posts/10158", "https://FACEBOOK.com:443/zuck/posts/10158/",
+                      "https://facebook.com/zuck/%70osts/10158", "http://m.facebook.com//groups//123456789//permalink//55/", "https://www.youtube.com//watch?v=dQw4w9WgXcQ&foo=bar",
+                      "https://www.youtube.com/channel//UCabcdefghijklmnopqrstuv/videos", "https://youtube.com/./watch?v=dQw4w9WgXcQ", "https://youtu.be//dQw4w9WgXcQ",
+                      "https://www.youtube.com/%77atch?v=dQw4w9WgXcQ", "https://www.facebook.com//photo.php?fbid=10&set=a.2", "https://facebook.com/zuck//videos/77/?x=1"]
 INDEX_CASE_PAIRS = [("http://a.com/x/INDEX.HTML/index.html", "http://a.com/x/INDEX.HTML"), ("https://b.org/Index.php/amp/", "https://b.org/Index.php"),
                     ("http://a.com/DEFAULT.ASPX/default.asp?x=1", "http://a.com/DEFAULT.ASPX?x=1"), ("http://a.com/x/Index/index", "http://a.com/x/Index"),
                     ("http://a.com/x/index.html/index.html", "http://a.com/x/index.html"), ("http://a.com/x/INDEX.HTML", "http://a.com/x/index.html")]
